@@ -243,3 +243,42 @@ def cell_table(match, universes):
                 table[cell] = i
                 break
     return table
+
+
+# ----------------------------------------------------------------------------------------------- locals by identity, not by name
+def is_lid(n, ids):
+    """n is a path to a local whose HirId-local id is in `ids` (renaming a variable does not change the verdict)."""
+    return isinstance(n, dict) and n.get("k") == "path" and n.get("res", {}).get("dk") == "Local" and n["res"].get("id") in ids
+
+
+def let_ids(node, init_pred):
+    """ids of the variables bound by `let <ident> = <init>` statements under `node` whose initialiser satisfies init_pred."""
+    out = set()
+    for l in find_all(node, lambda z: z.get("k") == "let" and isinstance(z.get("pat"), dict) and z["pat"].get("k") == "bind" and z.get("init") is not None):
+        try:
+            if init_pred(l["init"]):
+                out.add(l["pat"]["id"])
+        except (KeyError, TypeError):
+            pass
+    return out
+
+
+def param_ids(h, i):
+    """{id} of the i-th parameter (0 = self when present) of a HIR body, when it is a plain binding."""
+    ps = h.get("params") or []
+    if i < len(ps) and isinstance(ps[i], dict) and ps[i].get("k") == "bind":
+        return {ps[i]["id"]}
+    return set()
+
+
+def calls_path(n, regex):
+    """n is a call / method call whose resolved callee path matches regex."""
+    if not isinstance(n, dict):
+        return False
+    if n.get("k") == "call":
+        r = n.get("f", {}).get("res", {})
+        return bool(re.search(regex, r.get("rpath") or r.get("path") or ""))
+    if n.get("k") == "mcall":
+        d = n.get("def") or {}
+        return bool(re.search(regex, d.get("rpath") or d.get("path") or ""))
+    return False
